@@ -1081,6 +1081,22 @@ func (vc *VC) copyOp(fr *Frame, st *State, cc *ssa.CallCommon, args []Val, pos t
 		is.Name, na.S, vc.idxLe(dOff, iv).S, vc.idxLt(iv, vc.idxAdd(dOff, n)).S,
 		srcArr.S, vc.idxAdd(sOff, vc.idxSub(iv, dOff)).S, dstArr.S, na.S)
 	vc.assume(st, mk(q, sortBool))
+	if b, ok := et.Underlying().(*types.Basic); ok && (b.Kind() == types.Uint8 || b.Kind() == types.Byte) && vc.mode == ModeMath && !isString(cc.Args[1].Type()) &&
+		vc.top != nil && vc.top.contract != nil && vc.top.contract.opt("padlemma") {
+		// Padding lemma (an instance of "leading zero bytes do not change the big-endian value"): a window of
+		// the destination that starts with zeros and ends exactly where the copied bytes end denotes the same
+		// number as the source. Sound for every window; the solver picks the window through the pattern. Opt-in
+		// (option padlemma): the quantified instances slow byte-copying functions that do not need them.
+		vc.needBytes, vc.needBeval, vc.needPadLemma = true, true, true
+		// a window that does not overlap the copied range reads the same byte string before and after the copy
+		dis := fmt.Sprintf("(forall ((|q!o| %s) (|q!l| %s)) (! (=> (or (<= (+ |q!o| |q!l|) %s) (>= |q!o| (+ %s %s))) (= (bytes-of %s |q!o| |q!l|) (bytes-of %s |q!o| |q!l|))) :pattern ((bytes-of %s |q!o| |q!l|))))",
+			is.Name, is.Name, dOff.S, dOff.S, n.S, na.S, dstArr.S, na.S)
+		vc.assume(st, mk(dis, sortBool))
+		src := vc.bytesOf(srcArr, sOff, n)
+		lem := fmt.Sprintf("(forall ((|q!o| %s) (|q!l| %s)) (! (=> (and (<= |q!o| %s) (= |q!l| (+ (- %s |q!o|) %s)) (forall ((|q!z| %s)) (=> (and (<= |q!o| |q!z|) (< |q!z| %s)) (= (select %s |q!z|) 0)))) (= (beval (bytes-of %s |q!o| |q!l|)) (beval %s))) :pattern ((bytes-of %s |q!o| |q!l|))))",
+			is.Name, is.Name, dOff.S, dOff.S, n.S, is.Name, dOff.S, na.S, na.S, src.S, na.S)
+		vc.assume(st, mk(lem, sortBool))
+	}
 	vc.pendingRef = dRef.S
 	vc.heapSet(st, comp, vc.define(comp, tStore(h, dRef, na)))
 	vc.pendingRef = ""
